@@ -335,6 +335,11 @@ let step_preds : (string * (vconfig -> fstep -> bool)) list = [
   ("c14_segments_ok", c14_segments_ok);
   ("c08_deadline_ok", c08_deadline_ok);
   ("c14_wire_ok", c14_wire_ok);
+  ("c05_window_ok2", c05_window_ok2);
+  ("c05_rto_exit_ok2", c05_rto_exit_ok2);
+  ("c05_zero_window_ok_open", c05_zero_window_ok_open);
+  ("c05_zero_window_strict_or_d16_open", c05_zero_window_strict_or_d16_open);
+  ("c05_monitor_core_ok", c05_monitor_core_ok);
   ("c06_no_resend_acked", c06_no_resend_acked);
   ("c05_zero_window_strict", c05_zero_window_strict);
   ("c05_d16_class_neg", (fun c st -> not (c05_d16_class c st)));
@@ -371,11 +376,6 @@ let step_preds : (string * (vconfig -> fstep -> bool)) list = [
 ]
 let trace_preds : (string * (vconfig -> fstep list -> bool)) list = [
   ("c10_step_ok", c10_step_ok);
-  ("c05_window_ok2", c05_window_ok2);
-  ("c05_rto_exit_ok2", c05_rto_exit_ok2);
-  ("c05_zero_window_ok_open", c05_zero_window_ok_open);
-  ("c05_zero_window_strict_or_d16_open", c05_zero_window_strict_or_d16_open);
-  ("c05_monitor_core_ok", c05_monitor_core_ok);
   ("c04_vsock_ack_ok", c04_vsock_ack_ok);
   ("c04_consumed_honest_ok", c04_consumed_honest_ok);
   ("c05_slow_start_ok", c05_slow_start_ok);
